@@ -315,15 +315,18 @@ pub fn run(ctx: &mut Ctx) {
   let mut invariant_checks = 0u64;
   let mut frames_compared = 0u64;
   let mut cold_compared = 0u64;
-  // C04 thorough: one extra program whose translated footprint exceeds the code cache
-  let extra = if kind == "c04" && (thorough || ctx.arg_u64("cache-pressure", 0) != 0) { 1 } else { 0 };
+  let mut cache_restarts = 0u64;
+  // one extra program (C03 and C04, both tiers) whose translated footprint exceeds the code cache several times
+  let extra = if ctx.arg_u64("cache-pressure", 1) != 0 { 1 } else { 0 };
   for p in 0..nprog + extra {
     if !ctx.mine(p) {
       continue;
     }
     ctx.intent(&[p, 0]);
     let pressure = p == nprog;
-    let steps: u64 = if pressure { 120_000 } else { steps };
+    // ~4 block steps per routine, ~5 KiB of host code per routine: the quick tier
+    // fills the 8 MiB cache about twice, the thorough tier runs the whole program
+    let steps: u64 = if pressure { if thorough { 45_000 } else { 14_000 } } else { steps };
     let (image, desc) = if pressure { crate::gen::pressure::cache_pressure_image() } else { make_program(&kind, seed, p) };
     let mut core = support::core_from_image(&image);
     let mut obs = Observer::new();
@@ -379,6 +382,8 @@ pub fn run(ctx: &mut Ctx) {
       // C03 invariant monitor: source bytes each cache entry was translated from
       let mut sources: std::collections::HashMap<(usize, u32), Vec<u8>> = std::collections::HashMap::new();
       let mut last_bank = core.memory.get_rom_bank();
+      #[cfg(feature = "jit")]
+      let mut last_cursor = 0usize;
       let mut switched_since: std::collections::HashSet<u32> = std::collections::HashSet::new();
       for s in 0..steps.min(recorded_steps as u64) {
         let pc = core.registers.ip as u16;
@@ -436,13 +441,22 @@ pub fn run(ctx: &mut Ctx) {
         obs.feed();
         #[cfg(feature = "jit")]
         {
+          // the write cursor of the code cache only goes back when the cache starts over
+          let (_, _, cursor, _) = core.cache.verif_layout();
+          let restarted = cursor < last_cursor;
+          if restarted {
+            cache_restarts += 1;
+            // every entry the monitor knew is gone; the block just run was translated afresh
+            sources.clear();
+          }
+          last_cursor = cursor;
           if kind == "c03" && running && pc < 0x8000 {
             let entries = core.cache.verif_entries();
             let banks = core.cache.verif_region_banks();
             let region = if pc < 0x4000 { 0usize } else { 1 };
             let key = ((banks[region] as u32) << 16) | pc as u32;
             invariant_checks += 1;
-            if entries.len() > entries_before {
+            if entries.len() > entries_before || restarted {
               // a miss: remember what the new entry was translated from
               if let Some(e) = entries.iter().find(|e| e.0 == region && e.1 == key) {
                 let n = e.4.min(mapped_before.len());
@@ -562,6 +576,7 @@ pub fn run(ctx: &mut Ctx) {
   if role != "write" {
     ctx.count("steps-compared-with-interpreter-build", evaluations);
     ctx.count("frame-buffer-comparisons", frames_compared);
+    ctx.count("code-cache-restarts-observed", cache_restarts);
     if kind == "c03" {
       ctx.count("cache-invariant-checks", invariant_checks);
       ctx.count("steps-compared-with-cache-emptied-before-every-block", cold_compared);
